@@ -4,6 +4,7 @@ package gokaitai
 
 import (
 	"bytes"
+	"encoding/binary"
 	"errors"
 	"io"
 
@@ -139,4 +140,33 @@ func vStoredLen(file []byte, off uint64) uint64 {
 		shift += 7
 		p++
 	}
+}
+
+// H_C20_Vlq: the generated base-128 reader gives every length and checksum field the value the writer encoded
+// (encoding/binary's PutUvarint), for every encoding of 1..8 groups - the widths the schema supports.
+func H_C20_Vlq() {
+	n := vrt.Range("n", 1, 8)
+	b := vrt.BytesN("b", n)
+	for i := 0; i < n; i++ {
+		if i < n-1 {
+			vrt.Assume(b[i]&0x80 != 0)
+		} else {
+			vrt.Assume(b[i]&0x80 == 0)
+		}
+	}
+	if n >= 3 {
+		vrt.Reach("vlq/three-or-more-groups")
+	}
+	v := NewVlqBase128Le()
+	err := v.Read(kaitai.NewStream(bytes.NewReader(b)), nil, v)
+	vrt.Assert(err == nil, "vlq/read-no-error")
+	ln, err := v.Len()
+	vrt.Assert(err == nil && ln == n, "vlq/consumes-all-groups")
+	val, err := v.Value()
+	vrt.Assert(err == nil, "vlq/value-no-error")
+	want, m := binary.Uvarint(b)
+	vrt.Assert(m == n, "vlq/reference-decodes-all-groups")
+	vrt.Assert(uint64(val) == want, "vlq/value-is-what-the-writer-encoded")
+	vrt.Trace("value", uint64(val))
+	vrt.Reach("vlq/end")
 }
